@@ -1,9 +1,467 @@
-"""Engine V placeholder (filled in below)."""
+"""Engine V: Verus on functions extracted mechanically (by span) from /repo on every run.
+
+A unit is described by contracts/verus/<unit>.toml:
+
+  name, props, tier (optional), source (file in /repo), prelude (file in contracts/verus),
+  container = "impl P"            where the extracted functions are placed
+  rules = ["R1",...]              syntactic rewrite rules allowed for this unit (DESIGN 3.2)
+  [defs] NAME = "text"            $NAME substitution inside clauses
+  [[fn]] path=, trait= (optional), mode = "verify" | "external"
+         requires=[..] ensures=[..] ret="r"
+         [[fn.loop]] invariant=[..] decreases=".." ghost=[..]   (k-th table = k-th loop, pre-order)
+         probe = false            suppress the must-fail satisfiability probe of the precondition
+
+What is verified is the repository's text: the extractor copies bytes by the spans
+`vx index` reports and applies only the declared rules, counting each application.
+"""
+import glob
+import hashlib
+import json
+import os
+import re
+import tomllib
+
+from .common import VERIF, COMPILER_SRC, Undecided, run, vx_index, find_fn, log
+
+UNIT_DIR = os.path.join(VERIF, "contracts", "verus")
+
+DEFINITE = [
+    (re.compile(r"postcondition not satisfied"), "postcondition"),
+    (re.compile(r"precondition not satisfied"), "precondition"),
+    (re.compile(r"invariant not satisfied"), "invariant"),
+    (re.compile(r"decreases not satisfied"), "decreases"),
+    (re.compile(r"assertion failed"), "assertion"),
+    (re.compile(r"possible arithmetic (underflow/overflow|overflow|underflow)"), "arithmetic overflow"),
+    (re.compile(r"possible division by zero"), "division by zero"),
+    (re.compile(r"possible bit shift underflow/overflow"), "shift overflow"),
+    (re.compile(r"unreachable|unreached"), "reachable unreachable!()"),
+    (re.compile(r"index out of bounds|possible out.of.bounds"), "index out of bounds"),
+    (re.compile(r"loop invariant not|cannot show invariant"), "invariant"),
+]
+
+
+class Unit:
+    def __init__(self, path):
+        self.path = path
+        with open(path, "rb") as f:
+            self.d = tomllib.load(f)
+        self.name = self.d["name"]
+        self.props = self.d["props"]
+        self.tier = self.d.get("tier", "quick")
+        self.source = self.d["source"]
+        self.prelude = self.d.get("prelude")
+        self.container = self.d.get("container", "impl P")
+        self.rules = self.d.get("rules", [])
+        self.defs = self.d.get("defs", {})
+        self.fns = self.d.get("fn", [])
+        self.extra = self.d.get("extra", "")
+
+
+def load_units():
+    return [Unit(p) for p in sorted(glob.glob(os.path.join(UNIT_DIR, "*.toml")))]
 
 
 def units_for(prop, tier):
-    return []
+    return [u for u in load_units() if prop in u.props and (u.tier == "quick" or tier == "thorough")]
 
 
-def run_unit(u, scratch):
-    raise NotImplementedError
+def subst(defs, s):
+    for _ in range(4):
+        s2 = re.sub(r"\$(\w+)", lambda m: defs.get(m.group(1), m.group(0)), s)
+        if s2 == s:
+            break
+        s = s2
+    return s
+
+
+def clause_block(kw, clauses, defs, indent):
+    cl = [subst(defs, c).strip() for c in clauses if c.strip()]
+    if not cl:
+        return ""
+    return "\n" + indent + kw + "\n" + "".join(indent + "    " + c + ",\n" for c in cl)
+
+
+def check_accessor_impls(scratch, counts):
+    """R1 is sound only if every `impl BaseParser for X` has the trivial accessors."""
+    n = 0
+    for p in sorted(glob.glob(os.path.join(scratch, COMPILER_SRC, "**", "*.rs"), recursive=True)):
+        txt = open(p, errors="replace").read()
+        if "BaseParser for" not in txt:
+            continue
+        idx = vx_index(p)
+        raw = open(p, "rb").read()
+        for f in idx["fns"]:
+            if f["trait"] == "BaseParser" and f["path"].endswith("::toks"):
+                body = " ".join(raw[f["body_open"] : f["body_close"] + 1].decode().split())
+                if body != "{ &self.toks }":
+                    raise Undecided("R1 not applicable: %s in %s is %r" % (f["path"], p, body))
+                n += 1
+            if f["trait"] == "BaseParser" and f["path"].endswith("::toks_mut"):
+                body = " ".join(raw[f["body_open"] : f["body_close"] + 1].decode().split())
+                if body != "{ &mut self.toks }":
+                    raise Undecided("R1 not applicable: %s in %s is %r" % (f["path"], p, body))
+                n += 1
+    if n == 0:
+        raise Undecided("R1 not applicable: no BaseParser accessor impl found")
+    counts["R1_accessor_impls_checked"] = n
+
+
+def apply_edits(raw, base, edits):
+    """edits: (start,end,replacement) in absolute byte offsets, non-overlapping; returns text of raw[base_start:base_end] edited"""
+    s0, s1 = base
+    out = []
+    pos = s0
+    for a, b, rep in sorted(edits, key=lambda e: (e[0], e[1])):
+        if a < pos:
+            raise Undecided("overlapping rewrite at byte %d" % a)
+        out.append(raw[pos:a].decode())
+        out.append(rep)
+        pos = b
+    out.append(raw[pos:s1].decode())
+    return "".join(out)
+
+
+def assemble_fn(unit, spec, idx, raw, counts):
+    f = find_fn(idx, spec["path"], spec.get("trait"))
+    if f["kind"] == "trait_decl":
+        raise Undecided("function %s has no body" % spec["path"])
+    defs = unit.defs
+    mode = spec.get("mode", "verify")
+    edits = []
+    # R5: visibility
+    head = raw[f["start"] : f["sig_start"]].decode()
+    m = re.search(r"pub(\([^)]*\))?\s+$", head)
+    if m:
+        if "R5" not in unit.rules:
+            raise Undecided("%s needs R5" % spec["path"])
+        edits.append((f["start"] + len(head[: m.start()].encode()), f["sig_start"], ""))
+        counts["R5"] = counts.get("R5", 0) + 1
+    # return value name
+    rname = spec.get("ret", "r")
+    if f["ret"]:
+        a, b = f["ret"]
+        edits.append((a, b, "(%s: %s)" % (rname, raw[a:b].decode())))
+    contract = clause_block("requires", spec.get("requires", []), defs, "        ") + clause_block("ensures", spec.get("ensures", []), defs, "        ")
+    if mode == "external":
+        sig = apply_edits(raw, (f["sig_start"], f["body_open"]), [e for e in edits if e[0] >= f["sig_start"]])
+        text = "    #[verifier::external_body]\n    " + sig.rstrip() + contract + "    { unimplemented!() }\n"
+        return f, text, []
+    if contract:
+        edits.append((f["body_open"], f["body_open"], contract.lstrip("\n").rstrip() + "\n    "))
+        # keep a newline before the clauses
+        edits[-1] = (f["body_open"], f["body_open"], "\n" + contract.strip("\n") + "\n    ")
+    # loops
+    lspecs = spec.get("loop", [])
+    if len(lspecs) != len(f["loops"]):
+        raise Undecided("anchor lost: %s has %d loops, contract has %d" % (spec["path"], len(f["loops"]), len(lspecs)))
+    for k, (lp, ls) in enumerate(zip(f["loops"], lspecs)):
+        inv = clause_block("invariant", ls.get("invariant", []), defs, "            ")
+        dec = subst(defs, ls.get("decreases", "")).strip()
+        dec_txt = ("            decreases " + dec + ",\n") if dec else ""
+        lc = inv + dec_txt
+        if ls.get("kind") and ls["kind"] != lp["kind"]:
+            raise Undecided("anchor lost: loop %d of %s is `%s`, contract expects `%s`" % (k, spec["path"], lp["kind"], ls["kind"]))
+        ghost = "".join("let ghost %s;\n            " % subst(defs, g) for g in ls.get("ghost", []))
+        if ghost:
+            edits.append((lp["start"], lp["start"], ghost))
+        if lp["kind"] == "while_let":
+            if "R3" not in unit.rules:
+                raise Undecided("%s loop %d needs R3" % (spec["path"], k))
+            if lp["by_ref"]:
+                raise Undecided("R3 not applicable: `ref` binding in while-let of %s" % spec["path"])
+            pat = raw[lp["a"][0] : lp["a"][1]].decode()
+            expr = raw[lp["b"][0] : lp["b"][1]].decode()
+            binds = lp["binds"]
+            if len(binds) == 0:
+                bl = br = "()"
+            elif len(binds) == 1:
+                bl = br = binds[0]
+            else:
+                bl = br = "(" + ", ".join(binds) + ")"
+            label = ("'%s: " % lp["label"]) if lp["label"] else ""
+            rep = "%sloop%s        {\n            let %s = match %s { %s => %s, _ => break };" % (label, "\n" + lc if lc else " ", bl, expr, pat, br)
+            edits.append((lp["start"], lp["body_open"] + 1, rep))
+            counts["R3"] = counts.get("R3", 0) + 1
+        else:
+            if lc:
+                edits.append((lp["body_open"], lp["body_open"], "\n" + lc + "        "))
+    # R4: debug_assert
+    for m_ in f["macros"]:
+        if m_["name"] in ("debug_assert", "debug_assert_eq", "debug_assert_ne"):
+            if "R4" not in unit.rules:
+                raise Undecided("%s needs R4" % spec["path"])
+            edits.append((m_["start"], m_["end"], "/* R4: debug_assert dropped */"))
+            counts["R4"] = counts.get("R4", 0) + 1
+    text = apply_edits(raw, (f["start"], f["end"]), edits)
+    # R1: accessors
+    if "R1" in unit.rules:
+        text, n1 = re.subn(r"self\s*\.\s*toks_mut\(\)", "self.toks", text)
+        text, n2 = re.subn(r"self\s*\.\s*toks\(\)", "self.toks", text)
+        counts["R1"] = counts.get("R1", 0) + n1 + n2
+    # proof hints (ghost code) spliced in front of a uniquely identified source fragment
+    for ph in spec.get("proof", []):
+        frag = ph["before"]
+        n = text.count(frag)
+        if n != 1:
+            raise Undecided("anchor lost: proof-hint anchor %r occurs %d times in %s" % (frag, n, spec["path"]))
+        text = text.replace(frag, "proof { " + subst(defs, ph["text"]) + " }\n            " + frag)
+        counts["proof_hints"] = counts.get("proof_hints", 0) + 1
+    # declared textual substitutions (each must apply the stated number of times)
+    for sub in spec.get("subst", []):
+        n = text.count(sub["from"])
+        if n != sub.get("count", 1):
+            raise Undecided("anchor lost: substitution %r applies %d times in %s (expected %d)" % (sub["from"], n, spec["path"], sub.get("count", 1)))
+        text = text.replace(sub["from"], sub["to"])
+        counts["subst:" + sub.get("why", sub["from"])] = counts.get("subst:" + sub.get("why", sub["from"]), 0) + n
+    probes = []
+    req = [subst(defs, c) for c in spec.get("requires", [])]
+    if req and spec.get("probe", True) and f["has_self"]:
+        pname = "sat_probe_" + re.sub(r"\W+", "_", spec["path"])
+        args = spec.get("probe_args", "")
+        r2 = [c.replace("old(self)", "s").replace("self", "s") for c in req]
+        probes.append((pname, "    proof fn %s(s: P%s)\n        requires\n%s        ensures false,\n    {}\n" % (pname, (", " + args) if args else "", "".join("            " + c + ",\n" for c in r2))))
+    return f, "    " + text.strip("\n") + "\n", probes
+
+
+def build_unit(unit, scratch, outdir):
+    counts = {}
+    srcp = os.path.join(scratch, unit.source)
+    if not os.path.exists(srcp):
+        raise Undecided("anchor lost: %s" % unit.source)
+    raw = open(srcp, "rb").read()
+    idx = vx_index(srcp)
+    cache = {unit.source: (raw, idx)}
+
+    def src_of(spec):
+        sp = spec.get("source", unit.source)
+        if sp not in cache:
+            pp = os.path.join(scratch, sp)
+            if not os.path.exists(pp):
+                raise Undecided("anchor lost: %s" % sp)
+            cache[sp] = (open(pp, "rb").read(), vx_index(pp))
+        return cache[sp]
+
+    if "R1" in unit.rules:
+        check_accessor_impls(scratch, counts)
+    parts = ["use vstd::prelude::*;\nverus! {\n"]
+    if unit.prelude:
+        parts.append("// ---- prelude: %s (assumptions) ----\n" % unit.prelude)
+        parts.append(open(os.path.join(UNIT_DIR, unit.prelude)).read())
+    parts.append("\n// ---- vacuity probe: MUST FAIL ----\nproof fn vacuity_probe()\n    ensures false,\n{}\n")
+    if unit.extra:
+        parts.append("\n// ---- unit-level spec functions and lemmas ----\n" + unit.extra + "\n")
+    parts.append("\n// ---- functions extracted by span from %s ----\n%s {\n" % (unit.source, unit.container))
+    fn_meta = []
+    probes_all = []
+    body_parts = []
+    for spec in unit.fns:
+        raw_, idx_ = src_of(spec)
+        f, text, probes = assemble_fn(unit, spec, idx_, raw_, counts)
+        body_parts.append((spec, f, text, raw_))
+        probes_all += probes
+    cur = "".join(parts)
+    line = cur.count("\n") + 1
+    for spec, f, text, raw in body_parts:
+        n = text.count("\n")
+        fn_meta.append(
+            {
+                "path": spec["path"],
+                "source": spec.get("source", unit.source),
+                "name": spec["path"].split("::")[-1],
+                "mode": spec.get("mode", "verify"),
+                "first_line": line,
+                "last_line": line + n,
+                "repo_lines": [f["line"], f["end_line"]],
+                "sha1": hashlib.sha1(raw[f["start"] : f["end"]]).hexdigest()[:12],
+            }
+        )
+        cur += text + "\n"
+        line += n + 1
+    probe_meta = []
+    for pname, ptext in probes_all:
+        n = ptext.count("\n")
+        probe_meta.append({"name": pname, "first_line": line, "last_line": line + n})
+        cur += ptext + "\n"
+        line += n + 1
+    cur += "}\n\n} // verus!\nfn main() {}\n"
+    os.makedirs(outdir, exist_ok=True)
+    path = os.path.join(outdir, "%s.rs" % unit.name)
+    with open(path, "w") as fh:
+        fh.write(cur)
+    return path, fn_meta, probe_meta, counts
+
+
+ERR_RE = re.compile(r"^(error(?:\[E\d+\])?): (.*)\n\s+--> ([^:\n]+):(\d+):(\d+)", re.M)
+
+
+def run_unit(unit, scratch):
+    outdir = os.path.join(scratch, "verus_units")
+    path, fn_meta, probe_meta, counts = build_unit(unit, scratch, outdir)
+    if os.environ.get("VERIF_KEEP_UNITS"):
+        import shutil
+
+        shutil.copy(path, os.path.join(os.environ["VERIF_KEEP_UNITS"], os.path.basename(path)))
+    rlimit = str(unit.d.get("rlimit", 30))
+    cmd = ["verus", os.path.basename(path), "--output-json", "--time", "--multiple-errors", "50", "--rlimit", rlimit]
+    rc, out, secs, to = run(cmd, cwd=outdir, timeout=int(unit.d.get("timeout", 600)))
+    if to:
+        raise Undecided("verus timed out on unit %s" % unit.name)
+    # stdout json + stderr text are interleaved in `out` (stderr merged); split at first '{' line
+    jtxt = None
+    m = re.search(r"^\{\s*$", out, re.M)
+    if m:
+        depth = 0
+        i = m.start()
+        for j in range(i, len(out)):
+            if out[j] == "{":
+                depth += 1
+            elif out[j] == "}":
+                depth -= 1
+                if depth == 0:
+                    jtxt = out[i : j + 1]
+                    errtxt = out[:i] + out[j + 1 :]
+                    break
+    if jtxt is None:
+        raise Undecided("verus produced no JSON for unit %s: %s" % (unit.name, out[-800:]))
+    try:
+        J = json.loads(jtxt)
+    except Exception:
+        raise Undecided("verus JSON unparsable for unit %s" % unit.name)
+    vr = J.get("verification-results", {})
+    hard = re.search(r"^error\[E\d+\]|is not supported|^error: .*(unsupported|not yet supported|The verifier does not)", errtxt, re.M)
+    if vr.get("encountered-vir-error") or ("verified" not in vr) or hard:
+        raise Undecided("verus rejected unit %s (unsupported construct / type error): %s" % (unit.name, first_errors(errtxt)))
+    breakdown = {}
+    for mt in J.get("times-ms", {}).get("smt", {}).get("smt-run-module-times", []):
+        for fb in mt.get("function-breakdown", []):
+            breakdown[fb["function"].split("::")[-1]] = fb
+    errors = []
+    for em in ERR_RE.finditer(errtxt):
+        errors.append({"msg": em.group(2).strip(), "line": int(em.group(4))})
+    # errors that are not attributable -> hard errors
+    def owner(line):
+        for fm in fn_meta:
+            if fm["first_line"] <= line <= fm["last_line"]:
+                return ("fn", fm)
+        for pm in probe_meta:
+            if pm["first_line"] <= line <= pm["last_line"]:
+                return ("probe", pm)
+        return (None, None)
+
+    per_fn = {fm["path"]: [] for fm in fn_meta}
+    probe_failed = set()
+    vacuity_failed = False
+    stray = []
+    # secondary locations: Verus prints the failing clause first and the function body location after; use all `-->`/`:::` lines of a block
+    blocks = re.split(r"\n(?=error)", errtxt)
+    for b in blocks:
+        hm = re.match(r"error(?:\[E\d+\])?: (.*)", b)
+        if not hm:
+            continue
+        msg = hm.group(1).strip()
+        if msg.startswith("aborting due to"):
+            continue
+        lines = [int(x) for x in re.findall(r"(?:-->|:::) [^:\n]+:(\d+):\d+", b)]
+        # also the gutter line numbers of the snippet ("123 |")
+        lines += [int(x) for x in re.findall(r"^\s*(\d+) \|", b, re.M)]
+        owners = [owner(l) for l in lines]
+        fn_own = [o[1] for o in owners if o[0] == "fn"]
+        pr_own = [o[1] for o in owners if o[0] == "probe"]
+        if "vacuity_probe" in b:
+            vacuity_failed = True
+            continue
+        if pr_own and not fn_own:
+            probe_failed.add(pr_own[0]["name"])
+            continue
+        if fn_own:
+            # attribute to the function whose body contains the *last* location (the body), falling back to first
+            per_fn[fn_own[-1]["path"]].append(msg)
+            continue
+        stray.append(msg)
+    if not vacuity_failed:
+        raise Undecided("vacuity: `ensures false` verified in unit %s - prelude/axioms are contradictory" % unit.name)
+    vac = [p["name"] for p in probe_meta if p["name"] not in probe_failed]
+    if vac:
+        raise Undecided("vacuity: precondition probes verified (unsatisfiable requires) in unit %s: %s" % (unit.name, ", ".join(vac)))
+    if stray:
+        raise Undecided("verus reported errors outside extracted functions in unit %s: %s" % (unit.name, "; ".join(stray[:3])))
+    obligations = {}
+    prop = unit.props[0]
+    for fm in fn_meta:
+        if fm["mode"] != "verify":
+            continue
+        oid = "%s/V/%s/%s" % (prop, unit.name, fm["name"])
+        msgs = per_fn[fm["path"]]
+        fb = breakdown.get(fm["name"])
+        base = {
+            "engine": "verus/z3",
+            "kind": "V",
+            "fns": fm["path"],
+            "desc": "Verus: requires/ensures, loop invariants and termination measure of %s (%s lines %d-%d, sha1 %s)" % (fm["path"], fm["source"], fm["repo_lines"][0], fm["repo_lines"][1], fm["sha1"]),
+            "time": (fb or {}).get("time-micros", 0) / 1e6 if fb else 0.0,
+            "rlimit": (fb or {}).get("rlimit"),
+        }
+        if not msgs:
+            if fb is not None and not fb.get("success", True):
+                base.update(status="undecided", note="verus reports failure without a located message")
+            else:
+                base.update(status="discharged", nontrivial=True)
+        else:
+            kinds = []
+            soft = []
+            for msg in msgs:
+                k = None
+                for pat, name in DEFINITE:
+                    if pat.search(msg):
+                        k = name
+                        break
+                (kinds if k else soft).append(k or msg)
+            if kinds:
+                base.update(
+                    status="failed",
+                    sites=sorted(set("%s: %s" % (fm["name"], k) for k in kinds)),
+                    note="; ".join(sorted(set(kinds))),
+                    failed_checks=[{"description": m_} for m_ in msgs],
+                    verifier_output=extract_fn_errors(errtxt, fm),
+                )
+            else:
+                base.update(status="undecided", note="; ".join(soft)[:300])
+        obligations[oid] = base
+    assumptions = []
+    ext = [fm["path"] for fm in fn_meta if fm["mode"] == "external"]
+    if ext:
+        assumptions.append("verus unit %s: external_body (contract assumed, body not verified by Verus): %s" % (unit.name, ", ".join(ext)))
+    if unit.prelude:
+        ptxt = open(os.path.join(UNIT_DIR, unit.prelude)).read()
+        assumptions.append("verus unit %s: prelude %s declares %d external_body items and %d assume_specification items (Lexer interface, char predicates, error conversion)" % (unit.name, unit.prelude, ptxt.count("external_body"), ptxt.count("assume_specification")))
+    for k, v in sorted(counts.items()):
+        assumptions.append("verus unit %s: rewrite %s applied %d time(s)" % (unit.name, k, v))
+    whole = open(path).read()
+    assumptions.append("verus unit %s: mechanical scan of generated file: assume=%d admit=%d external_body=%d assume_specification=%d" % (unit.name, len(re.findall(r"\bassume\(", whole)), len(re.findall(r"\badmit\(", whole)), whole.count("external_body"), whole.count("assume_specification")))
+    meta = {
+        "unit": unit.name,
+        "cmd": " ".join(cmd),
+        "wall_s": round(secs, 2),
+        "verified": vr.get("verified"),
+        "errors": vr.get("errors"),
+        "functions": [fm["path"] for fm in fn_meta if fm["mode"] == "verify"],
+        "external": ext,
+        "rewrite_counts": counts,
+        "assumptions": assumptions,
+        "probes_must_fail": len(probe_meta) + 1,
+    }
+    return {"obligations": obligations, "meta": meta}
+
+
+def first_errors(errtxt):
+    errs = [m.group(0).replace("\n", " ") for m in ERR_RE.finditer(errtxt)]
+    return " | ".join(errs[:4]) if errs else errtxt[-600:]
+
+
+def extract_fn_errors(errtxt, fm):
+    out = []
+    for b in re.split(r"\n(?=error)", errtxt):
+        lines = [int(x) for x in re.findall(r"(?:-->|:::) [^:\n]+:(\d+):\d+", b)] + [int(x) for x in re.findall(r"^\s*(\d+) \|", b, re.M)]
+        if any(fm["first_line"] <= l <= fm["last_line"] for l in lines):
+            out.append(b)
+    return "\n".join(out)[:6000]
